@@ -53,6 +53,7 @@ func main() {
 	}
 	// calls made by the scheduler goroutine itself into the real code (Call, Cancel, Put, …) are bracketed with
 	// R.Enter / R.Leave: one that does not return within the limit ends the run with `mon HANG` (exit 3)
+	rec.Focus = *focus
 	rec.StartWatchdog(20 * time.Second)
 	ctx := &Ctx{Seed: *seed, Thorough: *tier == "thorough", R: r, Rnd: gen.New(*seed), Focus: *focus, Replay: *replay}
 	f(ctx)
